@@ -36,6 +36,10 @@ def run(ctx):
             n = 10 ** k + d
             if n > 1101 and (k < 6 or thorough or d == 0):
                 fills.append((rng.choice([0, 0x61, 0xff]), n))
+    for _ in range(300 if not thorough else 3000):
+        fills.append((rng.choice([0, 0x61, 0xff]), rng.randrange(10000, 200000)))
+    for n in (10100, 12300, 15000, 16001, 65500, 99999, 100100, 123400, 199999):
+        fills.append((0x61, n))
     # (the harness issues the calls of one batch in a pseudo-random order inside persistent processes, so small messages
     # are also hashed AFTER very large ones in the same process/thread)
     calls = [("message.digest", m) for m in msgs] + [("message.digest", bytes([b]) * n) for b, n in fills]
